@@ -550,11 +550,12 @@ class Effects:
                     rejs.setdefault((r.key, r.via), r)
             evs.append(Event("C", site, " | ".join(sorted({e.desc for e in cs}))[:200], list(rejs.values()), loop=loop, callee=cs[0].callee))
         if ms:
-            tags, fields = set(), set()
+            tags, fields, qfields = set(), set(), set()
             for e in ms:
                 tags |= e.tags
                 fields |= e.fields
-            evs.append(Event("M", site, " | ".join(sorted({e.desc for e in ms}))[:200], loop=loop, callee=ms[0].callee, tags=tags, fields=fields))
+                qfields |= e.qfields
+            evs.append(Event("M", site, " | ".join(sorted({e.desc for e in ms}))[:200], loop=loop, callee=ms[0].callee, tags=tags, fields=fields, qfields=qfields))
 
     def _specialise_targets(self, f, recv, tg):
         if recv is None or not any(g.module.external for g in tg):
